@@ -322,7 +322,9 @@ func init() {
 // c09GoTyped: Go-typed exports ([]any, map[string]any, typed slices) are built in FRESH memory.
 func c09GoTyped(c *Ctx) {
 	a := c.E3()
-	for _, name := range implNames(c, func(n string) bool { return n == "Slice" || n == "Dict" || strings.HasSuffix(n, "Slice") || n == "NativeDict" }) {
+	for _, name := range implNames(c, func(n string) bool {
+		return n == "Slice" || n == "Dict" || strings.HasSuffix(n, "Slice") || n == "NativeDict"
+	}) {
 		fn := a.ByName(name)
 		if fn == nil {
 			continue
